@@ -87,6 +87,13 @@ def run(pid, tier):
     seed = _seed()
     mod = _load(pid)
     parts = mod.parts(tier)
+    if tier == "thorough":
+        # the per-check thorough budgets were sized on a heavily loaded machine; on an idle 16-core
+        # box they take 0.5-3 minutes, so Hypothesis parts are scaled up (case counts, not time)
+        scale = float(os.environ.get("VERIF_THOROUGH_SCALE", getattr(mod, "THOROUGH_SCALE", 3.0)))
+        for p in parts:
+            if isinstance(p, harness.HypPart) and scale != 1.0:
+                p.examples = max(1, int(p.examples * scale))
     known, fixed = load_findings(pid)
     total = Stats()
     violations = []
